@@ -517,3 +517,7 @@ def _witnesses(ctx):
 
 
 DIRECTED = {"keyword-keys-and-generated-names": _witnesses}
+from ..suite_leg import make as _suite_leg  # noqa: E402
+
+DIRECTED["suite-under-monitors"] = _suite_leg("C19")
+
